@@ -18,7 +18,11 @@ CERTS = [('absent', None, None), ('cn0', (), 'client'), ('cn1', ('alice',), 'cli
          ('cn0-noeku', (), None), ('cn2-both', ('alice', 'mallory'), 'both'), ('cn2-noeku', ('alice', 'mallory'), None),
          # two common names inside one multi-valued RDN (CN=alice+CN=mallory), and one plain plus one such RDN
          ('cn2-one-rdn', ('+alice', '+mallory'), 'client'), ('cn3-mixed-rdn', ('alice', '+bob', '+mallory'), 'client'),
-         ('cn1-in-rdn', ('+alice',), 'client')]
+         ('cn1-in-rdn', ('+alice',), 'client'),
+         # a second common name that is blank, or the same name twice: two common names all the same
+         ('cn2-blank-first', (' ', 'alice'), 'client'), ('cn2-blank-last', ('alice', '  '), 'client'),
+         ('cn2-tab', ('\t', 'alice'), 'both'), ('cn2-same', ('alice', 'alice'), 'client'),
+         ('cn3-blanks', (' ', 'alice', '   '), 'client')]
 BEHAVIOURS = ['vouch', 'vouch-nogroups', 'user404', 'groups404', 'user403', 'user500', 'groups403', 'groups500',
               'unreachable', 'nonjson', 'nourl']
 FLIP = {'calls': 0}      # state of the 'flip' host: vouches (groups g1,g2) for the first request, then forgets the user
